@@ -227,7 +227,9 @@ pub fn native_sorted<T>(
                         let key = vm.run_function(key_fn)?;
                         result.push((key, k, v));
                     }
-                    result.sort_by(|(a, _, _), (b, _, _)| {
+                    // values are only partially ordered (nil / strings / tables against each
+                    // other): the standard sorts may panic on such a comparison function
+                    stable_sort_by(&mut result, |(a, _, _), (b, _, _)| {
                         a.partial_cmp(b).unwrap_or(std::cmp::Ordering::Equal)
                     });
 
@@ -246,6 +248,49 @@ pub fn native_sorted<T>(
             }
         },
     }
+}
+
+/// Stable merge sort that puts up with a comparison function that is not a total order: it never
+/// panics and never loses or duplicates an element; for a consistent comparison function the
+/// result is the same as that of `slice::sort_by`
+fn stable_sort_by<E: Copy>(items: &mut Vec<E>, mut cmp: impl FnMut(&E, &E) -> std::cmp::Ordering) {
+    let n = items.len();
+    let mut src = std::mem::take(items);
+    let mut dst = src.clone();
+    let mut width = 1;
+    while width < n {
+        let mut start = 0;
+        while start < n {
+            let mid = (start + width).min(n);
+            let end = (start + 2 * width).min(n);
+            let (mut i, mut j, mut k) = (start, mid, start);
+            while i < mid && j < end {
+                // take from the right run only if it is strictly smaller: equal elements keep their order
+                if cmp(&src[j], &src[i]) == std::cmp::Ordering::Less {
+                    dst[k] = src[j];
+                    j += 1;
+                } else {
+                    dst[k] = src[i];
+                    i += 1;
+                }
+                k += 1;
+            }
+            while i < mid {
+                dst[k] = src[i];
+                i += 1;
+                k += 1;
+            }
+            while j < end {
+                dst[k] = src[j];
+                j += 1;
+                k += 1;
+            }
+            start = end;
+        }
+        std::mem::swap(&mut src, &mut dst);
+        width *= 2;
+    }
+    *items = src;
 }
 
 pub fn native_to_array<T>(vm: &mut Vm<T>, iterable: Value) -> Result<Value, ExecutionErrorPayload> {
